@@ -182,7 +182,9 @@ func methodsOf(c *report.Ctx, pkg, name string) []*ssa.Function {
 	ms := c.P.Prog.MethodSets.MethodSet(types.NewPointer(n))
 	for i := 0; i < ms.Len(); i++ {
 		if sel := ms.At(i); len(sel.Index()) > 1 {
-			if f := c.P.Prog.MethodValue(sel); f != nil && load.PromoWrapper[f] && len(f.Blocks) > 0 {
+			// (only the methods the pinned type had: a NEW helper method of the embedded struct, promoted along, is no
+			// operation of this type - it is absorbed into the methods that call it and read there)
+			if f := c.P.Prog.MethodValue(sel); f != nil && load.PromoWrapper[f] && len(f.Blocks) > 0 && load.InBaseline(f) {
 				out = append(out, f)
 			}
 		}
